@@ -28,7 +28,9 @@ OpText(C, r) ==
       \* a single element is [i]; writes always spell the range [a-b] (fragment mode requires it)
       range == IF r.idx < 0 THEN "" ELSE IF r.n = 1 /\ r.svc = "read" THEN "[" \o ToString(r.idx) \o "]"
                ELSE "[" \o ToString(r.idx) \o "-" \o ToString(r.idx + r.n - 1) \o "]"
-  IN IF r.svc = "read" THEN base \o range ELSE base \o range \o "=(" \o r.typ \o ")" \o Csv(r.typ, r.vals)
+      \* an explicit byte offset "+off" makes the operation one fragment of a Read / Write Tag Fragmented transfer
+      offs == IF r.svc \in {"readf", "writef"} THEN "+" \o ToString(r.off) ELSE ""
+  IN IF r.svc \in {"read", "readf"} THEN base \o range \o offs ELSE base \o range \o offs \o "=(" \o r.typ \o ")" \o Csv(r.typ, r.vals)
 
 \* ---- what the application must observe
 \* fragment mode issues the fragmented services (offset 0)
